@@ -2112,6 +2112,16 @@ class NameCheckVisitor(node_visitor.ReplacingNodeVisitor):
                     node, error_code=ErrorCode.task_needs_yield
                 )
 
+        if (
+            sys.version_info >= (3, 12)
+            and node.type_params
+            and not info.is_overload
+            and not info.is_evaluated
+        ):
+            # Above, the name was bound inside the annotation scope that holds the
+            # type parameters (so that the body can refer to it); bind it in the
+            # enclosing scope too, or a nested `def f[T](...)` is an undefined name.
+            self._set_name_in_scope(node.name, node, val)
         self._set_argspec_to_retval(val, info, result)
         return val
 
